@@ -824,7 +824,14 @@ def install(prog):
         elif t is bool:
             d = False
         else:
-            raise Unsupported('mem::take of %r' % (v,))
+            d = None
+            m = re.search(r'take::<(.*)>$', callee, re.S)
+            if m:
+                tgt = resolve(ctx.prog, '<%s as Default>::default' % m.group(1))
+                if tgt[0] == 'mir':
+                    d = exec_func(ctx, tgt[1], [])
+            if d is None:
+                raise Unsupported('mem::take of %r' % (v,))
         R(a[0]).store(d)
         return v
 
